@@ -9,9 +9,14 @@ import (
 )
 
 func racMapCfgs(thorough bool) []mapCfg {
-	cfgs := []mapCfg{{true, 63}, {true, 0}, {true, 3}, {false, 63}, {false, 0}}
+	cfgs := []mapCfg{{Full: true, TotalRows: 63}, {Full: true, TotalRows: 0}, {Full: true, TotalRows: 3}, {Full: false, TotalRows: 63}, {Full: false, TotalRows: 0}}
 	if thorough {
-		cfgs = append(cfgs, mapCfg{true, 1}, mapCfg{true, 2}, mapCfg{true, 5}, mapCfg{true, 8}, mapCfg{true, 50}, mapCfg{false, 1}, mapCfg{false, 3}, mapCfg{false, 50})
+		for _, r := range []uint8{1, 2, 5, 8, 50} {
+			cfgs = append(cfgs, mapCfg{Full: true, TotalRows: r})
+		}
+		for _, r := range []uint8{1, 3, 50} {
+			cfgs = append(cfgs, mapCfg{Full: false, TotalRows: r})
+		}
 	}
 	return cfgs
 }
@@ -62,7 +67,24 @@ func (w *racWorld) applyAll(res *racResult, h racHistory, k int, checkRoots bool
 	for i, m := range w.maps {
 		sn := snap([][]Hash{bd.delHashes, bd.proof.Proof}, [][]uint64{bd.proof.Targets})
 		var merr error
-		p := safely(func() { merr = m.Modify(bd.leaves, bd.delHashes, bd.proof) })
+		leaves := bd.leaves
+		if w.cfgs[i].NoRemember {
+			leaves = make([]Leaf, len(bd.leaves))
+			for j, l := range bd.leaves {
+				leaves[j] = Leaf{Hash: l.Hash, Remember: false}
+			}
+			if len(bd.delHashes) > 0 {
+				var verr error
+				pv := safely(func() { verr = m.Verify(bd.delHashes, bd.proof, true) })
+				res.eval("MapPollard.Verify.rac.accepts-canonical")
+				if pv != "" || verr != nil {
+					res.fail("MapPollard.Verify.rac.accepts-canonical", map[string]interface{}{"history": h.String(), "block": k, "config": w.cfgs[i].String()}, fmt.Sprintf("panic=%q err=%v", pv, verr), "accepted")
+					ok = false
+					continue
+				}
+			}
+		}
+		p := safely(func() { merr = m.Modify(leaves, bd.delHashes, bd.proof) })
 		cl := "MapPollard.Modify.rac.accepts"
 		res.eval(cl)
 		if p != "" || merr != nil {
@@ -110,6 +132,7 @@ func replayHistory(res *racResult, h racHistory, cfgs []mapCfg, all bool) (*racW
 func TestRAC_C01(t *testing.T) {
 	res := newRacResult("C01")
 	cfgs := racMapCfgs(res.thorough())
+	cfgs = append(cfgs, mapCfg{Full: false, TotalRows: 63, NoRemember: true}, mapCfg{Full: false, TotalRows: 0, NoRemember: true}, mapCfg{Full: false, TotalRows: 3, NoRemember: true})
 	maxLeaves, maxBlocks := 6, 3
 	if res.thorough() {
 		maxLeaves, maxBlocks = 7, 4
